@@ -89,6 +89,12 @@ class Check:
         for fid, f in sorted(reproduced.items()):
             print(f"KNOWN-FINDING: property={self.prop} {fid}: {f['what']} "
                   f"[{absorbed[fid]} rejection(s)]")
+        if violations:
+            summary: dict[str, int] = {}
+            for r in violations:
+                summary[canon(r["key"])] = summary.get(canon(r["key"]), 0) + 1
+            for kk, n in sorted(summary.items())[:200]:
+                log(f"  unexplained x{n}: {kk}")
         seen = set()
         nviol = 0
         for r in violations:
